@@ -2078,7 +2078,9 @@ def _get_error_context(input_, token):
 
     i = max(input_.rfind('\n', 0, lexpos), 0)
     line = input_[i:lexpos] + line
-    lines = [line.strip('\r\n')]
+    # Only the line separators are removed: Leading CR characters of the line
+    # are counted in the column.
+    lines = [line.lstrip('\n').rstrip('\r\n')]
     col = lexpos - i
     while len(lines) < 5 and i > 0:
         end = i
